@@ -387,6 +387,15 @@ def c16(run, args):
     for b in lua:
         b["lua"] = True
     beh += lua
+    # (f) write faults (file store, RLIMIT_FSIZE): a delivery to a mailbox at its cap whose message file fits but whose index
+    #     rewrite does not is refused: nothing may have been announced for it (the message it would have evicted is still there)
+    for k, limit in enumerate(range(550, 1750, 60)):
+        for cap in (1, 2, 3):
+            ops = [{"op": "add", "mb": 0, "meta": 1, "size": 1000} for _ in range(cap + k % 2)]
+            # (the manager puts ~150-350 bytes of trace headers and subject in front of the body)
+            ops += [{"op": "addfault", "mb": 0, "meta": 1, "size": max(20, limit - 520), "limit": limit}, {"op": "add", "mb": 0, "meta": 1, "size": 1000}, {"op": "remove", "mb": 0, "id": 1},
+                    {"op": "purge", "mb": 0}]
+            beh.append({"id": "fault-%d-c%d" % (k, cap), "store": "file", "cap": cap, "maxkb": 0, "names": plain[0], "events": True, "hold_ms": 0, "ops": ops})
     run.cov["samples"] = [bfs[len(bfs) // 3], sim[0][:12]] if bfs and sim else []
     replay_and_validate(run, vh, beh, "c16", "C16 after-events")
     # (c) removals racing each other: several clients remove / purge the same messages at the same moment (web UI against REST
